@@ -47,16 +47,41 @@ type ownState struct {
 	cls     map[*types.Var]ocls
 	shallow map[*types.Var]bool      // top level freshly allocated (maps.Clone / literal): direct key writes are fine
 	moved   map[string]token.Pos     // "var:<name>@<pos>" or "field:T.f[base]" -> where it was given away
-	freshP  map[*types.Var]bool      // pointer variables that hold an object allocated in this function (or by a `fresh` callee)
+	freshP  map[*types.Var]psrc      // pointer (or pointer-list) variables: which objects they may refer to
 	bottom  bool                     // no execution reaches this state yet (accumulators)
 }
 
+// psrc: the objects a pointer-typed value may refer to: objects allocated in this function (always allowed), the
+// objects passed as parameter i (bit i+1; bit 0 = receiver), or anything else (other).
+type psrc struct {
+	params uint64
+	other  bool
+	known  bool
+}
+
+func (p psrc) fresh() bool { return p.known && p.params == 0 && !p.other }
+
+func joinP(a, b psrc) psrc {
+	if !a.known {
+		return b
+	}
+	if !b.known {
+		return a
+	}
+	return psrc{params: a.params | b.params, other: a.other || b.other, known: true}
+}
+
+var (
+	pFresh = psrc{known: true}
+	pOther = psrc{known: true, other: true}
+)
+
 func newOwnState() *ownState {
-	return &ownState{cls: map[*types.Var]ocls{}, shallow: map[*types.Var]bool{}, moved: map[string]token.Pos{}, freshP: map[*types.Var]bool{}, bottom: true}
+	return &ownState{cls: map[*types.Var]ocls{}, shallow: map[*types.Var]bool{}, moved: map[string]token.Pos{}, freshP: map[*types.Var]psrc{}, bottom: true}
 }
 
 func (s *ownState) clone() *ownState {
-	n := &ownState{cls: map[*types.Var]ocls{}, shallow: map[*types.Var]bool{}, moved: map[string]token.Pos{}, freshP: map[*types.Var]bool{}}
+	n := &ownState{cls: map[*types.Var]ocls{}, shallow: map[*types.Var]bool{}, moved: map[string]token.Pos{}, freshP: map[*types.Var]psrc{}}
 	for k, v := range s.cls {
 		n.cls[k] = v
 	}
@@ -109,9 +134,11 @@ func (s *ownState) join(o *ownState) {
 			s.moved[k] = v
 		}
 	}
-	for k := range s.freshP {
-		if !o.freshP[k] {
-			delete(s.freshP, k)
+	for k, v := range o.freshP {
+		if cur, ok := s.freshP[k]; ok {
+			s.freshP[k] = joinP(cur, v)
+		} else {
+			s.freshP[k] = v
 		}
 	}
 }
@@ -128,6 +155,7 @@ type ownAnalyzer struct {
 	writes  map[string]string // field key -> first position written (on a non-fresh object), incl. callees
 	writeBases map[string]map[int]bool // field key -> which object: -1 receiver, i parameter i, -2 anything else
 	retCls  ocls
+	retObj  psrc
 	lits    map[*types.Var]*ast.FuncLit
 	depth   int
 	retAcc  *ownState // states at return statements of the literal being analysed (they reach the next iteration)
@@ -197,8 +225,9 @@ func ownFunc(w *World, fi *FuncInfo) []*OwnOb {
 			}
 		}
 	}
-	st := &ownState{cls: map[*types.Var]ocls{}, shallow: map[*types.Var]bool{}, moved: map[string]token.Pos{}, freshP: map[*types.Var]bool{}}
+	st := &ownState{cls: map[*types.Var]ocls{}, shallow: map[*types.Var]bool{}, moved: map[string]token.Pos{}, freshP: map[*types.Var]psrc{}}
 	sig := fi.Obj.Type().(*types.Signature)
+	initPtrParams(sig, st)
 	for i := 0; i < sig.Params().Len(); i++ {
 		p := sig.Params().At(i)
 		if !isTreeType(p.Type()) {
@@ -238,6 +267,19 @@ func ownFunc(w *World, fi *FuncInfo) []*OwnOb {
 		}
 	}
 	return out
+}
+
+func isPtrish(t types.Type) bool { return t != nil && (isPtrToStruct(t) || isRefList(t)) }
+
+func initPtrParams(sig *types.Signature, st *ownState) {
+	if r := sig.Recv(); r != nil && isPtrish(r.Type()) {
+		st.freshP[r] = psrc{known: true, params: 1}
+	}
+	for i := 0; i < sig.Params().Len() && i < 62; i++ {
+		if p := sig.Params().At(i); isPtrish(p.Type()) {
+			st.freshP[p] = psrc{known: true, params: 1 << uint(i+1)}
+		}
+	}
 }
 
 func (a *ownAnalyzer) block(stmts []ast.Stmt, st *ownState) {
@@ -290,10 +332,17 @@ func (a *ownAnalyzer) stmt(s ast.Stmt, st *ownState) {
 		}
 	case *ast.IncDecStmt:
 	case *ast.ReturnStmt:
-		for _, r := range s.Results {
+		for ri, r := range s.Results {
 			c := a.expr(r, st)
 			if a.retAcc == nil && isTreeType(a.info.TypeOf(r)) {
 				a.retCls = joinCls(a.retCls, c)
+			}
+			if a.retAcc == nil && ri == 0 {
+				if t := a.info.TypeOf(r); isPtrish(t) {
+					a.retObj = joinP(a.retObj, a.ptrSrc(r, st))
+				} else if tt, ok := t.(*types.Tuple); ok && tt.Len() > 0 && isPtrish(tt.At(0).Type()) {
+					a.retObj = joinP(a.retObj, a.ptrSrc(r, st))
+				}
 			}
 			if a.retAcc == nil {
 				if call, ok := r.(*ast.CallExpr); ok && len(s.Results) == 1 {
@@ -395,6 +444,9 @@ func (a *ownAnalyzer) stmt(s ast.Stmt, st *ownState) {
 					continue
 				}
 				if v := a.varOf(lv); v != nil {
+					if isPtrish(v.Type()) {
+						b.freshP[v] = a.ptrSrc(s.X, st)
+					}
 					if isTreeType(v.Type()) {
 						b.cls[v] = c
 					}
@@ -447,16 +499,19 @@ func endsInReturn(stmts []ast.Stmt) bool {
 func (a *ownAnalyzer) assign(s *ast.AssignStmt, st *ownState) {
 	var rcls []ocls
 	var rshallow []bool
-	var rfreshP []bool
+	var rfreshP []psrc
 	if len(s.Rhs) == 1 && len(s.Lhs) > 1 {
-		cs, sh, fp := a.exprMulti(s.Rhs[0], st, len(s.Lhs))
-		rcls, rshallow, rfreshP = cs, sh, fp
+		cs, sh, _ := a.exprMulti(s.Rhs[0], st, len(s.Lhs))
+		rcls, rshallow = cs, sh
+		for range s.Lhs {
+			rfreshP = append(rfreshP, a.ptrSrc(s.Rhs[0], st))
+		}
 	} else {
 		for _, r := range s.Rhs {
 			c := a.expr(r, st)
 			rcls = append(rcls, c)
 			rshallow = append(rshallow, a.isShallowFresh(r, st))
-			rfreshP = append(rfreshP, a.isFreshPtr(r, st))
+			rfreshP = append(rfreshP, a.ptrSrc(r, st))
 		}
 	}
 	for i, l := range s.Lhs {
@@ -472,10 +527,12 @@ func (a *ownAnalyzer) assign(s *ast.AssignStmt, st *ownState) {
 			}
 			st.cls[v] = c
 			st.shallow[v] = i < len(rshallow) && rshallow[i]
-			if i < len(rfreshP) && rfreshP[i] {
-				st.freshP[v] = true
-			} else {
-				delete(st.freshP, v)
+			if isPtrish(v.Type()) {
+				if i < len(rfreshP) {
+					st.freshP[v] = rfreshP[i]
+				} else {
+					st.freshP[v] = pOther
+				}
 			}
 			// a reassigned variable is live again
 			for k := range st.moved {
@@ -517,14 +574,95 @@ func (a *ownAnalyzer) fieldWrite(lx *ast.SelectorExpr, st *ownState) {
 	if _, isPtr := rt.Underlying().(*types.Pointer); !isPtr {
 		return
 	}
-	base := -2
-	if bv := a.varOf(lx.X); bv != nil {
-		if st.freshP[bv] {
-			return
-		}
-		base = a.paramIndexOf(bv)
+	a.recordWriteTo(fieldKey(rt, lx.Sel.Name), a.ptrSrc(lx.X, st), a.pos(lx.Pos()))
+}
+
+// recordWriteTo records a field write for every object the base pointer may refer to (none for fresh objects).
+func (a *ownAnalyzer) recordWriteTo(key string, p psrc, pos string) {
+	if !p.known || p.other {
+		a.recordWrite(key, -2, pos)
 	}
-	a.recordWrite(fieldKey(rt, lx.Sel.Name), base, a.pos(lx.Pos()))
+	for i := 0; i < 63; i++ {
+		if p.params&(1<<uint(i)) != 0 {
+			a.recordWrite(key, i-1, pos)
+		}
+	}
+}
+
+// ptrSrc computes which objects a pointer-typed (or pointer-list-typed) expression may refer to.
+func (a *ownAnalyzer) ptrSrc(x ast.Expr, st *ownState) psrc {
+	if !isPtrish(a.info.TypeOf(x)) {
+		if t, ok := a.info.TypeOf(x).(*types.Tuple); !ok || t.Len() == 0 || !isPtrish(t.At(0).Type()) {
+			return pOther
+		}
+	}
+	switch y := x.(type) {
+	case *ast.ParenExpr:
+		return a.ptrSrc(y.X, st)
+	case *ast.Ident:
+		if y.Name == "nil" {
+			return pFresh
+		}
+		if v := a.varOf(y); v != nil {
+			if p, ok := st.freshP[v]; ok {
+				return p
+			}
+		}
+		return pOther
+	case *ast.UnaryExpr:
+		if y.Op == token.AND {
+			if _, ok := y.X.(*ast.CompositeLit); ok {
+				return pFresh
+			}
+		}
+		return pOther
+	case *ast.CompositeLit:
+		p := pFresh
+		for _, el := range y.Elts {
+			if kv, ok := el.(*ast.KeyValueExpr); ok {
+				el = kv.Value
+			}
+			p = joinP(p, a.ptrSrc(el, st))
+		}
+		return p
+	case *ast.IndexExpr:
+		return a.ptrSrc(y.X, st)
+	case *ast.SliceExpr:
+		return a.ptrSrc(y.X, st)
+	case *ast.CallExpr:
+		if id, ok := y.Fun.(*ast.Ident); ok {
+			if b, ok := a.info.Uses[id].(*types.Builtin); ok && b.Name() == "append" {
+				p := pFresh
+				for _, ar := range y.Args {
+					p = joinP(p, a.ptrSrc(ar, st))
+				}
+				return p
+			}
+		}
+		callee := a.w.calleeOfCall(y, a.info)
+		if callee == nil {
+			return pOther
+		}
+		sum := a.w.retObjSummary(callee)
+		if !sum.known || sum.other {
+			return pOther
+		}
+		p := pFresh
+		if sum.params&1 != 0 {
+			if sel, ok := y.Fun.(*ast.SelectorExpr); ok {
+				p = joinP(p, a.ptrSrc(sel.X, st))
+			} else {
+				return pOther
+			}
+		}
+		for i := 0; i < len(y.Args) && i < 62; i++ {
+			if sum.params&(1<<uint(i+1)) != 0 {
+				p = joinP(p, a.ptrSrc(y.Args[i], st))
+			}
+		}
+		return p
+	}
+	return pOther
 }
 
 func (a *ownAnalyzer) isShallowFresh(x ast.Expr, st *ownState) bool {
@@ -545,6 +683,10 @@ func (a *ownAnalyzer) isShallowFresh(x ast.Expr, st *ownState) bool {
 }
 
 func (a *ownAnalyzer) isFreshPtr(x ast.Expr, st *ownState) bool {
+	return a.ptrSrc(x, st).fresh()
+}
+
+func (a *ownAnalyzer) isFreshPtrOld(x ast.Expr, st *ownState) bool {
 	switch y := x.(type) {
 	case *ast.UnaryExpr:
 		if y.Op == token.AND {
@@ -557,7 +699,7 @@ func (a *ownAnalyzer) isFreshPtr(x ast.Expr, st *ownState) bool {
 		}
 	case *ast.Ident:
 		if v := a.varOf(y); v != nil {
-			return st.freshP[v]
+			return st.freshP[v].fresh()
 		}
 	}
 	return false
@@ -656,7 +798,7 @@ func (a *ownAnalyzer) expr(x ast.Expr, st *ownState) ocls {
 			}
 			rt := a.info.TypeOf(y.X)
 			if bv := a.varOf(y.X); bv != nil {
-				if st.freshP[bv] {
+				if st.freshP[bv].fresh() {
 					return owned
 				}
 				key := fieldKey(rt, y.Sel.Name) + "[" + bv.Name() + "]"
@@ -860,7 +1002,6 @@ func (a *ownAnalyzer) call(y *ast.CallExpr, st *ownState, n int) ([]ocls, []bool
 	// heap writes of the callee count for this function's frame, unless they hit an object allocated here
 	for k, base := range a.w.ownWrites(callee) {
 		for b := range base {
-			skip := false
 			var argx ast.Expr
 			switch {
 			case b == -1:
@@ -870,22 +1011,11 @@ func (a *ownAnalyzer) call(y *ast.CallExpr, st *ownState, n int) ([]ocls, []bool
 			case b >= 0 && b < len(y.Args):
 				argx = y.Args[b]
 			}
-			nb := -2
+			src := pOther
 			if argx != nil {
-				if bv := a.varOf(argx); bv != nil {
-					if st.freshP[bv] {
-						skip = true
-					} else {
-						nb = a.paramIndexOf(bv)
-					}
-				} else if a.isFreshPtr(argx, st) {
-					skip = true
-				}
+				src = a.ptrSrc(argx, st)
 			}
-			if skip {
-				continue
-			}
-			a.recordWrite(k, nb, a.pos(y.Pos())+" (via "+callee.Name+")")
+			a.recordWriteTo(k, src, a.pos(y.Pos())+" (via "+callee.Name+")")
 		}
 	}
 	// consumed fields declared by the callee: (consumes Document.Data[patch]) -> the caller's argument for `patch`
@@ -900,7 +1030,7 @@ func (a *ownAnalyzer) call(y *ast.CallExpr, st *ownState, n int) ([]ocls, []bool
 				if sig.Params().At(pi).Name() == pname && pi < len(y.Args) {
 					if bv := a.varOf(y.Args[pi]); bv != nil {
 						key := fkey + "[" + bv.Name() + "]"
-						fresh := st.freshP[bv]
+						fresh := st.freshP[bv].fresh()
 						if p, moved := st.moved["field:"+key]; moved {
 							a.ob("own-moved-once", callee.Name+" <- "+key, false, y.Pos(), fmt.Sprintf("%s is handed to %s although it was already handed over at %s: the same tree then has several owners (one per loop iteration / target)", key, callee.Name, a.pos(p)))
 						} else {
@@ -915,7 +1045,7 @@ func (a *ownAnalyzer) call(y *ast.CallExpr, st *ownState, n int) ([]ocls, []bool
 			}
 		}
 	}
-	fp := a.w.returnsFreshObject(callee)
+	fp := false
 	if cc != nil && cc.Fresh {
 		return mk(owned, true, fp)
 	}
